@@ -115,7 +115,8 @@ CHECKS = {
    text="Proof: props/C13.v. For every matrix, size and number of modes the expanded matrix's coefficient between (p, mode i) and "
         "(q, mode i') is the single-mode coefficient when i = i' and zero otherwise (expand_coeff), the index layout i*N+n is injective "
         "and onto 0..np*N-1; the waves around an expanded block satisfy its equations exactly when every mode's waves satisfy the "
-        "single-mode block's equations: np independent copies (expand_independent); connect_all links exactly the common modes, like "
+        "single-mode block's equations: np independent copies (expand_independent), and a whole circuit of expanded blocks with every "
+        "link replicated per mode solves exactly when every mode's waves solve the single-mode circuit (expanded_circuit_independent); connect_all links exactly the common modes, like "
         "with like (connect_all_pairs); the base-name / mode / pin queries return exactly those of the pins the object has. Closed under "
         "the global context. The tie expands every library block and random models to 1-5 modes in random order, with scalar parameters "
         "and sweeps, directly / through a solver / after an earlier solve; wires circuits of expanded blocks (equal, permuted, partially "
@@ -123,8 +124,8 @@ CHECKS = {
         "multi-mode netlist AND with independent per-mode solves and zero cross-mode coefficients; runs the queries on models, results, "
         "structures and placed sub-solvers.",
    note="Trusted: Coq kernel + vm_compute; Bignums primitives for the executed instance; model Modes.v tied by sampled correspondence; "
-        "harness. The circuit-level statement (a whole circuit of expanded blocks = independent copies) is proved per block and tied for "
-        "circuits by the per-mode comparison in Coq, not proved for arbitrary circuits. Follows the fixed code (F17, F18). Expansion of an "
+        "harness. The circuit-level statement is proved for circuits whose blocks all carry the same mode list (every link replicated per "
+        "mode); partially overlapping mode lists are covered by the per-mode comparison in Coq (tie), not by a theorem. Follows the fixed code (F17, F18). Expansion of an "
         "already solved model raises and is outside the model.",
    technique="Coq proof (index/block-diagonal algebra, wave-level independence per block, list lemmas) + vm_compute correspondence", design="§5 C13"),
  "C14": dict(
@@ -167,28 +168,31 @@ CHECKS = {
         "(the changed solver is detected by fingerprinting all solvers before/after each helper).",
    technique="Coq proof by induction over programs + vm_compute correspondence of executed with-block programs", design="§5 C17"),
  "C07": dict(
-   text="PARTIAL proof + full-state correspondence. Proved for every state of every history (props/C07.v, closed): solve is a query on "
-        "the wiring state; an accepted connect is recorded and recognised; rejected cut/remove change nothing; the matrix of the circuit a "
-        "state denotes is the exact solution of its network equations however that circuit was declared (C01/C03 theorems), so a state "
-        "and a freshly built solver denoting the same circuit solve alike. NOT yet proved: the invariant that all tables (solver-level and "
-        "per-structure) denote the same circuit after every operation; that part is tied by the correspondence: random histories over "
-        "{add, re-add after cut/remove, connect, cut, remove, map, raise-all, solve} are replayed on /repo and after EVERY call the "
-        "observable state (structures, connections, pins reported free, exposed pins, ok/error) is compared with the model "
-        "Wiring.v, and at every solve the matrix with the model's exact solve of the remaining circuit (incl. dead ports left by remove).",
+   text="Proof (props/C07.v, closed): the representation invariant Rep of the wiring state — every table of the solver (connections, "
+        "connection list) and of every structure it ever held (conn_dict, connected_to) is a function of the list of present structures "
+        "and the set of links; absent structures hold nothing; neighbour lists are exact and duplicate-free — holds initially and is "
+        "preserved by EVERY operation (add, re-add, connect, cut, remove, prune, map, raise-all, solve; accepted or rejected), hence in "
+        "every reachable state (invariant_everywhere, tables_consistent: nothing stale survives a cut or a remove, nothing is lost); solve "
+        "is a query; the matrix of the circuit a state denotes is the exact solution of its network equations however it was declared "
+        "(C01/C03 theorems), so the edited solver and a freshly built one solve alike; the pins reported free are, after any history, "
+        "exactly and each once the unconnected pins of the present structures (free_pins_exact: pins freed by a cut are free again, pins "
+        "facing a removed structure are gone, a re-added structure brings its pins back). The tie replays random histories, hub histories "
+        "(cut/remove of a structure with >=2 neighbours, bypass, re-add), prune with empty models, shared pin names and re-mapped names "
+        "on /repo and compares after EVERY call the observable state and at every solve the matrix with the model.",
    note="Trusted: Coq kernel + vm_compute; Bignums primitives for the executed instance; model Wiring.v tied by sampled correspondence; harness. "
         "The model follows the fixed code (F08, F09, F10 in known_findings.json).",
-   technique="Coq theorems on the step function (partial) + vm_compute state-by-state correspondence of edit histories", design="§5 C07, §8"),
+   technique="Coq proof (representation invariant preserved by every operation, induction over histories) + vm_compute state-by-state correspondence", design="§5 C07, §8"),
  "C16": dict(
-   text="Proof (props/C16.v, closed): in every state a connected pin is refused for any other partner in either argument position and the "
-        "state is untouched; repeating a connect in either orientation is a no-op; adding a present structure is refused with the state "
-        "untouched; every validation failure of connect leaves the state untouched (PARTIAL: the case 'validation passed but a stale "
-        "per-structure table refuses the link' is excluded by table consistency, which is tied by correspondence, not proved); two distinct "
-        "pins with the same printable name make the name table refuse (for all pin lists); an accepted table resolves every name to exactly "
-        "its pin and nothing else; renamed pins are addressable by the new names. The tie replays histories with 30 % invalid calls by Pin "
-        "object and by name on /repo, comparing ok/error and the observable state after every call and the final solve, and random pin-name "
-        "tables with renamings (swaps, chains, collisions) through Model.pin / Structure.pin.",
+   text="Proof (props/C16.v, closed): after ANY history of add / connect / cut / remove / prune / map / raise / solve calls a rejected connect "
+        "or add leaves every table of the solver and of every structure exactly as it was (rejected_call_changes_nothing, through the "
+        "representation invariant of C07); cut/remove are all-or-nothing (detach_all_or_nothing); in every state a connected pin is refused "
+        "for any other partner in either argument position; repeating a connect in either orientation is a no-op; two distinct pins with the "
+        "same printable name make the name table refuse (for all pin lists); an accepted table resolves every name to exactly its pin; renamed "
+        "pins are addressable by the new names. The tie replays histories with 30 % invalid calls by Pin object and by name on /repo, "
+        "comparing ok/error and the observable state after every call and the final solve, and random pin-name tables with renamings "
+        "(swaps, chains, collisions) through Model.pin / Structure.pin.",
    note="Trusted: Coq kernel + vm_compute; models Wiring.v/Names.v tied by sampled correspondence; harness. Follows the fixed code (F01, F10, F11, F26).",
-   technique="Coq theorems on the step function and on name tables + vm_compute correspondence of histories with invalid calls", design="§5 C16, §8"),
+   technique="Coq proof (invariant + atomicity for all histories; name tables for all pin lists) + vm_compute correspondence of histories with invalid calls", design="§5 C16, §8"),
  "C20": dict(
    text="PARTIAL by nature. Proved (props/C20.v, all sizes, closed under the global context): a successful solve of n components "
         "performs exactly n-1 merges; a cascade of any number of reflection-free two-ports solves to the product of the transmissions "
